@@ -90,6 +90,7 @@ type Event struct {
 	ExecFree bool    `json:"execFree"` // executor semaphore free (sampled only while no call is in flight)
 	ChkFree  bool    `json:"chkFree"`  // checkpoint lock free (same)
 	Cut      int64   `json:"cut"`      // cut-off (ms) a retention step used, 0 otherwise
+	FlagsStale bool  `json:"flagsStale"` // hasRead / open / handles could not be sampled at this line (values of the previous line)
 	Bg       bool    `json:"bg"`       // a background application writer (AppHoldWrite) was in flight during this step
 	Pre     PreState `json:"pre"`
 }
@@ -126,6 +127,7 @@ type Runner struct {
 	seenRem map[string]bool
 	fc      *faultClient
 	lastFlags [3]bool
+	flagsStale bool // the last lifecycleFlags() call timed out (a parked goroutine holds db.mu): the values are the previous ones
 	lastCut   int64
 	baseMs    int64 // times are logged in ms relative to this instant (TLC integers are 32 bit)
 	holdDone  chan struct{}
@@ -749,7 +751,9 @@ func (r *Runner) lifecycleFlags() (hasRead, open, handles bool) {
 	select {
 	case v := <-ch:
 		r.lastFlags = [3]bool{v.a, v.b, v.c}
+		r.flagsStale = false
 	case <-time.After(40 * time.Millisecond):
+		r.flagsStale = true
 	}
 	return r.lastFlags[0], r.lastFlags[1], r.lastFlags[2]
 }
@@ -979,6 +983,7 @@ func RunCase(c Case, baseDir string, hooks func(r *Runner, ls *litestream.DB)) (
 					}
 					r.observe(&ev)
 					ev.HasRead, ev.Open, ev.Handles = r.lifecycleFlags()
+					ev.FlagsStale = r.flagsStale
 					if st := r.store; st != nil {
 						ev.NDBs = len(st.(*litestream.Store).DBs())
 					}
